@@ -137,6 +137,29 @@ func decodeAll(max, allowed uint32, strlen int, writes [][]byte) string {
 	return strings.Join(append(out, tableTok(d.VerifTable())), " ")
 }
 
+// decodeBlocks: like decodeAll; a nil write stands for Close() between two header blocks
+func decodeBlocks(max, allowed uint32, strlen int, writes [][]byte) string {
+	var out []string
+	d := hpack.NewDecoder(max, func(f hpack.HeaderField) { out = append(out, fieldTok(f)) })
+	d.SetAllowedMaxDynamicTableSize(allowed)
+	d.SetMaxStringLength(strlen)
+	for _, w := range writes {
+		if w == nil {
+			if err := d.Close(); err != nil {
+				return strings.Join(append(out, hpErr(err)), " ")
+			}
+			continue
+		}
+		if _, err := d.Write(w); err != nil {
+			return strings.Join(append(out, hpErr(err)), " ")
+		}
+	}
+	if err := d.Close(); err != nil {
+		return strings.Join(append(out, hpErr(err)), " ")
+	}
+	return strings.Join(append(out, tableTok(d.VerifTable())), " ")
+}
+
 func init() {
 	registerOp("hpdec", hpdecExec)
 	registerOp("hpenc", func(a []string) string {
@@ -214,8 +237,16 @@ func init() {
 		max, _ := strconv.ParseUint(kv["max"], 10, 32)
 		strlen, _ := strconv.Atoi(kv["strlen"])
 		block := unhx(kv["block"])
-		whole := decodeAll(uint32(max), uint32(max), strlen, [][]byte{block})
-		var ws [][]byte
+		// pre=<hex>,<hex>: earlier header blocks of the same connection (each written whole and closed): the block under test
+		// then meets a non-empty dynamic table
+		var pre [][]byte
+		if kv["pre"] != "" {
+			for _, h := range strings.Split(kv["pre"], ",") {
+				pre = append(pre, unhx(h), nil)
+			}
+		}
+		whole := decodeBlocks(uint32(max), uint32(max), strlen, append(append([][]byte{}, pre...), block))
+		ws := append([][]byte{}, pre...)
 		pos := 0
 		for _, c := range strings.Split(kv["cuts"], ",") {
 			n, _ := strconv.Atoi(c)
@@ -230,7 +261,7 @@ func init() {
 		if pos < len(block) {
 			ws = append(ws, block[pos:])
 		}
-		frag := decodeAll(uint32(max), uint32(max), strlen, ws)
+		frag := decodeBlocks(uint32(max), uint32(max), strlen, ws)
 		if whole == frag {
 			return "same"
 		}
@@ -286,6 +317,27 @@ func init() {
 	}
 
 	register("hpack", "C18: encoder sequences, round trips, decoder on encoder output / mutated / random bytes, fragmentations, Huffman, varints", func(c *ctx) {
+		// a block that BEGINS with one or two dynamic table size updates (one byte and multi-byte integers), arriving on a
+		// connection whose table is already populated, cut at every position
+		{
+			var pre bytes.Buffer
+			pe := hpack.NewEncoder(&pre)
+			pe.WriteField(hpack.HeaderField{Name: "x-first", Value: "one"})
+			pe.WriteField(hpack.HeaderField{Name: "x-second", Value: "two"})
+			for _, ups := range [][]uint32{{30}, {31}, {2048}, {4096}, {0, 4096}, {100, 2048}} {
+				var blk bytes.Buffer
+				be := hpack.NewEncoder(&blk)
+				for _, u := range ups {
+					be.SetMaxDynamicTableSize(u)
+				}
+				be.WriteField(hpack.HeaderField{Name: "x-third", Value: "three"})
+				b := blk.Bytes()
+				for cut := 1; cut < len(b); cut++ {
+					c.tag("frag:size-update-at-block-start")
+					c.op(fmt.Sprintf("hpfrag max=4096 strlen=0 pre=%s block=%s cuts=%d", hx(pre.Bytes()), hx(b), cut))
+				}
+			}
+		}
 		// varints: boundaries of every prefix size
 		for n := 1; n <= 8; n++ {
 			for _, i := range []uint64{0, 1, 1<<uint(n) - 2, 1<<uint(n) - 1, 1 << uint(n), 127, 128, 16383, 16384, 1 << 32, 1<<62 - 1, 1 << 62,
